@@ -9,8 +9,6 @@ def evaluate(prop, provider=None, tier="quick"):
     mod = importlib.import_module("sa.rules." + prop.lower())
     rep = Report(prop, tier, LEVEL.get(prop, "other"))
     model = Model(provider)
-    from . import sysrules
-    sysrules._ROW_CACHE.clear()
     mod.run(model, rep, tier)
     return rep, model
 
